@@ -18,6 +18,7 @@ and anything about the reasons marked `byReading` in the discharge table.  The f
 is: `C03_full_counterexample` (finding F-9, `Frame.size` contains the text of wall-clock readings).
 -/
 import PrimaiteModel.Lemmas.NondetDischarge
+import PrimaiteModel.Gen.SharedState
 
 namespace Primaite.Noninterf
 open Primaite.Gen.Nondet
@@ -383,6 +384,76 @@ example : canonRun [] (runOps demoFixed rhoMicros (drawSim .py) (fun _ => ()) { 
     canonRun [] (runOps demoFixed rhoMicros (drawSim .py) (fun _ => ()) { episode := 0, st := (), w := { rng := fun _ => 5 } }
       (codeShape.toOps false [.reset none, .step ()])) = [[], [.val 38]] := by decide
 
+
+/-! ## process-global state that survives between games of one interpreter
+
+The process model builds every game from the episode's configuration alone (`Sim.construct : Cfg → Prog σ`): nothing of an
+earlier game — of the same environment or of another one that ran earlier in the process — is an input.  What ties that to
+the code is (a) the shared-state inventory `Gen/SharedState.lean` (C04's extractor, imported read-only): every class-level /
+module-level object that is WRITTEN AT RUN TIME, with its writers, (b) the committed discharge below, and (c) the rig's
+process-history workers (other games are built, played and closed in the interpreter before the case). -/
+
+/-- why a run-time written process-global cannot carry anything from an earlier game into the trajectory -/
+inductive GlobalDischarge where
+  /-- `PrimaiteGame.from_config` assigns it UNCONDITIONALLY (a top-level statement, before any `return`) in every build, and both
+  `__init__` and `reset` go through `from_config` (`C03_gen_seed_before_build`): whatever an earlier game left is overwritten
+  before the new game reads it (that no reader runs before the assignment inside `from_config` is C04's `C04_gen_write_order`) -/
+  | rewrittenAtEveryBuild
+  /-- only read to decide where / whether log files and tables are written (by reading; C04's role table marks every reader a sink) -/
+  | sinkOnly
+  /-- written only while the module is imported or by the command-line tools, never by an operation of an environment (by reading) -/
+  | notWrittenByAnOperation
+  deriving DecidableEq, Repr
+
+/-- a build whose process-global part is assigned unconditionally from the configuration -/
+def buildUncond {Cfg G R : Type} (write : Cfg → G) (rest : G → Cfg → R) (_old : G) (c : Cfg) : R × G := (rest (write c) c, write c)
+
+/-- a build that assigns the process-global only when the configuration has the (optional) section -/
+def buildCond {Cfg G R : Type} (has : Cfg → Bool) (write : Cfg → G) (rest : G → Cfg → R) (old : G) (c : Cfg) : R × G :=
+  let g := if has c then write c else old
+  (rest g c, g)
+
+/-- **Lemma for the kind `rewrittenAtEveryBuild`.** An unconditional assignment makes the build a function of the configuration
+alone: whatever the process did before (`old`, `old'` arbitrary), the game built and the global left behind are the same. -/
+theorem C03_unconditional_global_write_forgets_history {Cfg G R : Type} (write : Cfg → G) (rest : G → Cfg → R) (old old' : G) (c : Cfg) :
+    buildUncond write rest old c = buildUncond write rest old' c := rfl
+
+/-- **Why the assignment must be unconditional (seeded change C03-c / C04-b).** With "assign only if the scenario has a
+non-empty section", a scenario WITHOUT the section builds a different game in a warm interpreter (an earlier game switched
+capture on) than in a fresh one. -/
+theorem C03_conditional_global_write_counterexample :
+    buildCond (fun c : Option Bool => c.isSome) (fun c => c.getD false) (fun g _ => g) true none ≠
+      buildCond (fun c : Option Bool => c.isSome) (fun c => c.getD false) (fun g _ => g) false none := by decide
+
+open Primaite.Gen.SharedState in
+/-- site ↦ reason for every process-global the shared-state inventory shows written at run time -/
+def globalsTable : List (String × GlobalDischarge) := [
+  ("game.agent.observations.nic_observations:NICObservation.capture_nmne", .rewrittenAtEveryBuild),
+  ("primaite:PRIMAITE_CONFIG", .notWrittenByAnOperation),
+  ("simulator.network.airspace:AirSpaceFrequency._registry", .notWrittenByAnOperation),
+  ("simulator.network.hardware.base:NetworkInterface.nmne_config", .rewrittenAtEveryBuild),
+  ("simulator.system.core.packet_capture:PacketCapture._logger_instances", .sinkOnly),
+  ("simulator:SIM_OUTPUT", .sinkOnly) ]
+
+open Primaite.Gen.SharedState in
+/-- **Gen obligation (inventory kind "module / class-level mutable state written at run time").** The run-time written
+process-globals are exactly the committed six, each with exactly the committed writer functions (a new global, or a new
+function writing one, breaks this); and every global discharged `rewrittenAtEveryBuild` has `PrimaiteGame.from_config` among its
+UNCONDITIONAL writers — an assignment moved under an `if` (only when the scenario has the section) breaks it. -/
+theorem C03_process_globals_discharged :
+    ((entries.filter fun e => !e.writers.isEmpty).map fun e => (e.name, e.writers.map fun i => fns.getD i "?")) =
+      [ ("game.agent.observations.nic_observations:NICObservation.capture_nmne", ["game.game:PrimaiteGame.from_config"]),
+        ("primaite:PRIMAITE_CONFIG", ["utils.cli.dev_cli:config_callback", "utils.cli.dev_cli:disable", "utils.cli.dev_cli:enable",
+                                      "utils.cli.dev_cli:path"]),
+        ("simulator.network.airspace:AirSpaceFrequency._registry", ["simulator.network.airspace:AirSpaceFrequency.__init__"]),
+        ("simulator.network.hardware.base:NetworkInterface.nmne_config", ["game.game:PrimaiteGame.from_config"]),
+        ("simulator.system.core.packet_capture:PacketCapture._logger_instances",
+          ["simulator.system.core.packet_capture:PacketCapture.clear", "simulator.system.core.packet_capture:PacketCapture.setup_logger"]),
+        ("simulator:SIM_OUTPUT", ["session.io:PrimaiteIO.__init__", "simulator.network.networks:network_simulator_demo_example"]) ] ∧
+    (entries.filter fun e => !e.writers.isEmpty).map (·.name) = globalsTable.map (·.1) ∧
+    (globalsTable.all fun t => t.2 != .rewrittenAtEveryBuild ||
+      (entries.any fun e => e.name == t.1 && (e.uncondWriters.map fun i => fns.getD i "?").contains "game.game:PrimaiteGame.from_config")) = true := by
+  decide +kernel
 
 /-! ## the translator tie: every site of the regenerated inventory is discharged -/
 
